@@ -6,6 +6,7 @@ CONSTANTS
   DelimKinds = {"nl"}
   HostDelimKinds = {"nl"}
   WithNoop = TRUE
+  WithLim = TRUE
   Codecs = {"bytes", "json"}
   PayAlpha = {1}
   MaxPay = 1
